@@ -37,6 +37,7 @@ type Options struct {
 	KnownOpen       map[string]bool   // ids of listed, unfixed known findings
 	Params          map[string]string // harness parameters (verif.Param)
 	GoBin           string            // directory holding the go tool used for loading
+	Stubs           map[string]string // function name -> stub kind (true|false|zero)
 }
 
 type World struct {
@@ -105,7 +106,7 @@ func Load(opts Options) (*World, error) {
 		Overlay:    opts.Overlay,
 		BuildFlags: []string{"-tags=" + strings.Join(opts.Tags, ",")},
 	}
-	pkgs, err := packages.Load(cfg, opts.Pkg)
+	pkgs, err := packages.Load(cfg, strings.Fields(opts.Pkg)...)
 	if err != nil {
 		return nil, err
 	}
@@ -268,6 +269,11 @@ func (e *Exec) restoreGlobals() {
 // outside the encoding (the affected globals become opaque values).
 func (e *Exec) initPackage(p *ssa.Package) {
 	e.inited[p] = true
+	if os.Getenv("GOSYM_DEBUG") != "" {
+		t0 := time.Now()
+		fmt.Fprintf(os.Stderr, "init %s ...\n", p.Pkg.Path())
+		defer func() { fmt.Fprintf(os.Stderr, "init %s done in %v\n", p.Pkg.Path(), time.Since(t0)) }()
+	}
 	// allocate all globals of the package first (init stores into them)
 	for _, m := range p.Members {
 		if g, ok := m.(*ssa.Global); ok {
